@@ -66,7 +66,11 @@ where
         let mut ops = Vec::new();
         if mode == 3 {
             let n_log = if thorough { 6 + rng.below(9) as u8 } else { 6 + rng.below(6) as u8 };
-            ops.push(AOp::Cfg { mode, nsrc: 0, rform: 0, n_log, vseed: rng.next(), max_len: 1 + rng.below(4), pform: 0 });
+            // growth variants: 0 plain pushes; 1 FlatStack::extend in small batches (it reserves
+            // its size hint on every call); 2 rows that keep getting wider (columns regions)
+            let variant = if caps.is_stack && rng.coin() { 1 } else if T::name().starts_with("ColumnsRegion") && rng.coin() { 2 } else { 0 };
+            let n_log = if variant == 2 { n_log.min(9) } else { n_log };
+            ops.push(AOp::Cfg { mode, nsrc: variant, rform: 0, n_log, vseed: rng.next(), max_len: 1 + rng.below(4), pform: 0 });
             return ops;
         }
         ops.push(AOp::Cfg { mode, nsrc: 1 + rng.below(3) as u8, rform: rng.below(caps.nrforms.max(1)), n_log: 0, vseed: 0, max_len: 0, pform: if rng.coin() { 0 } else { rng.below(caps.nforms.max(1)) } });
@@ -127,14 +131,59 @@ where
                 let mut t = alloc::with_owner(1, T::new);
                 let n = 1usize << n_log.min(15);
                 let mut marks: Vec<(usize, u64)> = Vec::new();
-                for i in 1..=n {
-                    let v = T::Val::gen(&mut Gen::new(&mut rng, &mut knobs));
-                    alloc::with_owner(1, || {
-                        let _ = t.push(&v, 0);
-                    });
-                    if i >= 64 && i.is_power_of_two() {
+                let variant = nsrc;
+                // distinct capacities seen for the first reported storage (the column vector of a
+                // columns region): amortised growth means O(log n) of them
+                let mut first_caps: Vec<usize> = Vec::new();
+                let mut i = 0usize;
+                while i < n {
+                    match variant {
+                        1 => {
+                            let k = 1 + rng.below(4);
+                            let vs: Vec<T::Val> = (0..k).map(|_| T::Val::gen(&mut Gen::new(&mut rng, &mut knobs))).collect();
+                            alloc::with_owner(1, || {
+                                let _ = t.extend_raw(&vs, k, Some(k));
+                            });
+                            i += k;
+                            out.hit("unsized_extend_batches");
+                        }
+                        2 => {
+                            let v = match T::Val::with_len(&mut Gen::new(&mut rng, &mut knobs), i + 1) {
+                                Some(v) => v,
+                                None => T::Val::gen(&mut Gen::new(&mut rng, &mut knobs)),
+                            };
+                            alloc::with_owner(1, || {
+                                let _ = t.push(&v, 0);
+                            });
+                            i += 1;
+                            if let Some(h) = t.heap() {
+                                if let Some(p) = h.first() {
+                                    if first_caps.last() != Some(&p.1) {
+                                        first_caps.push(p.1);
+                                    }
+                                }
+                            }
+                            out.hit("unsized_widening_rows");
+                        }
+                        _ => {
+                            let v = T::Val::gen(&mut Gen::new(&mut rng, &mut knobs));
+                            alloc::with_owner(1, || {
+                                let _ = t.push(&v, 0);
+                            });
+                            i += 1;
+                        }
+                    }
+                    if i >= 64 && (i.is_power_of_two() || (variant == 1 && marks.last().map(|m| i >= 2 * m.0).unwrap_or(i >= 64))) {
                         marks.push((i, alloc::snap(1).calls()));
                     }
+                }
+                if variant == 2 {
+                    let allowed = 2 * (usize::BITS - n.leading_zeros()) as usize + 4;
+                    if first_caps.len() > allowed {
+                        return fail("growth-not-logarithmic", format!("{n} rows of growing width changed the capacity of the first reported storage {} times (amortised growth allows about {allowed})", first_caps.len()));
+                    }
+                    alloc::with_owner(1, move || drop(t));
+                    return None;
                 }
                 let pairs = t.heap().map(|h| h.len()).unwrap_or(0).max(1) as u64;
                 let total = alloc::snap(1).calls();
